@@ -70,6 +70,20 @@ Fixpoint mates_of (nu nv nw size : Z) (ops : list gridop) (p : v3) : res (list Z
 
 Definition set_all (a : arr) (ks : list Z) (v : Z) : arr := fold_left (fun a k => aset a k v) ks a.
 
+(* raw mate indices, as stored in `mates` (no memory access yet) *)
+Definition mates_raw (nu nv nw : Z) (ops : list gridop) (p : v3) : list Z :=
+  map (fun o => let '(a, b, c) := gapply o p in index_n64 nu nv nw a b c) ops.
+
+(* for (size_t k : mates) { if (visited[k]) fail(...); value = func(value, data[k]); } *)
+Fixpoint reduce_mates (func : Z -> Z -> Z) (data visited : arr) (size : Z) (ks : list Z) (value : Z) : res Z :=
+  match ks with
+  | [] => Ok value
+  | k :: t =>
+    if negb (in_size k size) then Oob
+    else if negb (aget visited 0 k =? 0) then Exc
+    else reduce_mates func data visited size t (func value (aget data 0 k))
+  end.
+
 (* one iteration of the (w,v,u) loop body; state = (data, visited) *)
 Definition symm_step (func : Z -> Z -> Z) (nu nv nw size : Z) (ops : list gridop)
                      (st : arr * arr) (idx : Z) : res (arr * arr) :=
@@ -77,11 +91,9 @@ Definition symm_step (func : Z -> Z -> Z) (nu nv nw size : Z) (ops : list gridop
   if negb (aget visited 0 idx =? 0) then Ok st
   else
     let u := idx mod nu in let v := (idx / nu) mod nv in let w := idx / (nu * nv) in
-    bind (mates_of nu nv nw size ops (u, v, w)) (fun mates =>
-      if existsb (fun k => negb (aget visited 0 k =? 0)) mates then Exc
-      else
-        let value := fold_left (fun val k => func val (aget data 0 k)) mates (aget data 0 idx) in
-        Ok (set_all (aset data idx value) mates value, set_all (aset visited idx 1) mates 1)).
+    let mates := mates_raw nu nv nw ops (u, v, w) in
+    bind (reduce_mates func data visited size mates (aget data 0 idx)) (fun value =>
+      Ok (set_all (aset data idx value) mates value, set_all (aset visited idx 1) mates 1)).
 
 Fixpoint symm_loop (func : Z -> Z -> Z) (nu nv nw size : Z) (ops : list gridop)
                    (idxs : list Z) (st : arr * arr) : res (arr * arr) :=
